@@ -36,7 +36,7 @@ def run_units(units, extra_args=(), timeout=3000):
         shutil.rmtree(tmp, ignore_errors=True)
     return out
 
-def native(driver, scenario, timeout=300):
+def native(driver, scenario, timeout=300, prop=None):
     """run a replay driver on the real code under the repository's interpreter"""
     path = os.path.join(ROOT, 'replay', driver + '.py')
     if not os.path.exists(path): return {'reproduced': False, 'note': f'no replay driver {driver}'}
@@ -47,7 +47,16 @@ def native(driver, scenario, timeout=300):
         p = subprocess.run([PYREPO, path, f], capture_output=True, text=True, timeout=timeout, env=env, cwd=tmp)
         lines = [l for l in p.stdout.strip().splitlines() if l.startswith('{')]
         if not lines: return {'reproduced': False, 'note': 'replay driver produced no result', 'stderr': p.stderr[-1500:]}
-        return json.loads(lines[-1])
+        r = json.loads(lines[-1])
+        if prop and isinstance(r.get('failures'), list) and all(isinstance(f, dict) and 'failed_clauses' in f for f in r['failures']):
+            # keep only the natively failing clauses that speak about this property and are not an already listed open finding
+            pats = [re.compile(kf['native_clause']) for kf in load_known() if kf.get('status') == 'open' and kf.get('native_clause')]
+            kept = []
+            for f in r['failures']:
+                cl = [c for c in f['failed_clauses'] if prop in c.split(':')[0] and not any(pt.search(c) for pt in pats)]
+                if cl: kept.append(dict(f, failed_clauses=cl))
+            r['failures'] = kept; r['reproduced'] = bool(kept)
+        return r
     except subprocess.TimeoutExpired:
         return {'reproduced': False, 'note': 'replay driver timed out'}
     finally:
@@ -60,7 +69,7 @@ def load_known():
 def do_replay(path):
     d = json.load(open(path)); drv = d.get('driver')
     if not drv: print(f"replay file {path}: obligation {d.get('obligation')} has no native driver; verifier output:\n{d.get('model_excerpt', '')}"); return 0
-    r = native(drv, d['scenario']); print(json.dumps(r, indent=1))
+    r = native(drv, d['scenario'], prop=d.get('property')); print(json.dumps(r, indent=1))
     return 1 if r.get('reproduced') else 0
 
 def main():
@@ -102,7 +111,7 @@ def main():
         o = next((x for x in os_ if x.get('witness')), os_[0])
         drv = (o.get('replay') or {}).get('driver')
         scenario = dict(o.get('witness') or {}); scenario.update({kx: vx for kx, vx in (o.get('replay') or {}).items() if kx != 'driver'})
-        nat = native(drv, scenario) if drv else {'reproduced': False, 'note': 'obligation has no input-level counterexample (no native driver)'}
+        nat = native(drv, scenario, prop=pid) if drv else {'reproduced': False, 'note': 'obligation has no input-level counterexample (no native driver)'}
         rel = f"replays/{pid}-{slug(name)}.json"
         json.dump({'property': pid, 'obligation': name, 'unit': o['unit'], 'paths_refuted': len(os_), 'solver': o['solver'], 'solver_verdict': o['raw'], 'driver': drv, 'scenario': scenario,
                    'model_excerpt': o.get('model_excerpt'), 'native': nat, 'functions': [f for f in functions if f['unit'] == o['unit']],
